@@ -45,6 +45,11 @@ def _recv(f):
     return pickle.loads(data)
 
 
+def _is_fresh(task):
+    p = task[3]
+    return isinstance(p, dict) and bool(p.get("_fresh"))
+
+
 class _Worker:
     def __init__(self, env, idx, logdir):
         self.idx = idx
@@ -105,13 +110,18 @@ class _Worker:
             except Exception:
                 pass
 
-    def log_tail(self, n=6000):
+    def log_tail(self, n=3000):
+        """key sanitizer lines of the last 400 KB + the raw tail"""
         try:
             with open(self.logpath, "rb") as f:
                 f.seek(0, 2)
                 size = f.tell()
-                f.seek(max(0, size - n))
-                return f.read().decode("utf8", "replace")
+                f.seek(max(0, size - 400000))
+                txt = f.read().decode("utf8", "replace")
+            keys = [l for l in txt.splitlines()
+                    if "runtime error:" in l or "ERROR: AddressSanitizer" in l or l.startswith("SUMMARY:")
+                    or "Fatal Python error" in l]
+            return "\n".join(keys[-6:]) + "\n----\n" + txt[-n:]
         except Exception:
             return ""
 
@@ -156,7 +166,12 @@ class Pool:
         # adaptive batch: never give one worker more than its fair share
         size = max(1, min(self.batch, (len(self.queue) + self.n - 1) // self.n))
         while self.queue and len(b) < size:
+            fresh = _is_fresh(self.queue[0])
+            if fresh and b:
+                break
             b.append(self.queue.popleft())
+            if fresh:
+                break
         w.send(b)
 
     def run(self, on_result):
@@ -176,12 +191,16 @@ class Pool:
             for key, _ in events:
                 w = key.data
                 msgs, eof = w.messages()
+                respawn = False
                 for tid, res in msgs:
                     w.last = now
                     task = w.outstanding.popleft()
                     assert task[0] == tid, (task[0], tid)
                     on_result(task, res)
-                if eof:
+                    respawn = respawn or _is_fresh(task)
+                if respawn and not w.outstanding:
+                    self._respawn(w)      # one process per 'fresh' point
+                elif eof:
                     self._dead(w, on_result, "crash")
             for w in list(self.workers):
                 if w.outstanding and now - w.last > self.timeout:
@@ -212,7 +231,7 @@ class Pool:
         for t in reversed(rest):
             self.queue.appendleft(t)
         on_result(culprit, {"ok": False, "outcome": kind, "rc": rc,
-                            "log_tail": tail[-3000:]})
+                            "log_tail": tail[-4500:]})
 
     def close(self):
         for w in self.workers:
